@@ -25,6 +25,9 @@ type TGCase struct {
 	// NestEvery > 0: during every NestEvery-th parse the action of an early
 	// reduction starts a nested parse of the next input (Go variants)
 	NestEvery int `json:"nest_every,omitempty"`
+	// TraceLate > 0: after the ordinary ops, the first TraceLate inputs are parsed
+	// once more with IsTrace switched on only at an early reduction (by an action)
+	TraceLate int `json:"trace_late,omitempty"`
 	// (rules with Spec.Rules[i].NoAct are written without any action: their
 	// reductions are not recorded, so only the differential oracle (C08) and the
 	// verdict oracles apply to such a case)
@@ -320,6 +323,9 @@ func runTG(c *Ctx, cases []*TGCase, trace bool) (map[string]map[string]*gen.VRes
 				op.NestIn = cs.Inputs[(k+1)%len(cs.Inputs)]
 			}
 			j.Ops = append(j.Ops, op)
+		}
+		for k := 0; k < cs.TraceLate && k < len(cs.Inputs); k++ {
+			j.Ops = append(j.Ops, gen.Op{Op: "parse", Init: true, In: cs.Inputs[k], TraceAt: 1 + k%3})
 		}
 		jobs = append(jobs, j)
 	}
